@@ -145,7 +145,7 @@ FIELD_TYPES = {
     'Constraint.expression': TRef('Expression'),
     'Constraint.equality_or_inequality': TStr,
     'reuse_gradient': TBool,
-    't0': TInt, 't1': TInt, 't2': TInt,
+    't0': TInt, 't1': TInt, 't2': TInt, 'tr0': TReal, 'tr1': TReal, 'tr2': TReal,
     'shape0': TInt, 'shape1': TInt,
 }
 
@@ -485,8 +485,8 @@ class Engine:
         if v.ty.k == 'bool':
             return v.t
         if v.ty.k == 'opt':
-            inner = V(v.ty.a[0], v.t)
-            if v.ty.a[0].k in ('ref', 'htuple', 'list', 'dict'):
+            inner = V(v.ty.a[0], v.t, items=v.items)
+            if v.ty.a[0].k in ('ref', 'htuple'):
                 return z3.Not(v.none)
             return z3.And(z3.Not(v.none), self.truth(inner))
         if v.ty.k == 'int':
@@ -952,8 +952,11 @@ class Engine:
             raise OutOfSubset('slice at line %d' % e.lineno)
         if base.ty.k == 'tuple':
             idx = self.ev(e.slice, st)
-            if idx.ty.k == 'int' and z3.is_int_value(idx.t):
-                return base.items[idx.t.as_long()]
+            if idx.ty.k == 'int' and z3.is_int_value(z3.simplify(idx.t)):
+                j = z3.simplify(idx.t).as_long()
+                if -len(base.items) <= j < len(base.items):
+                    return base.items[j]
+                raise OutOfSubset('tuple index out of range at line %d' % e.lineno)
         if base.ty.k == 'list' and isinstance(e.slice, ast.Slice):
             sl = e.slice
             if sl.upper is None and sl.step is None and sl.lower is not None:
@@ -982,7 +985,7 @@ class Engine:
             sl = e.slice
             if sl.upper is None and sl.step is None and isinstance(sl.lower, ast.Constant) and isinstance(sl.lower.value, int) and sl.lower.value >= 0:
                 k0 = sl.lower.value
-                items = [V(t, st.heap.fld(None, 't%d' % j, base.t)) for j, t in enumerate(base.ty.a)][k0:]
+                items = [self.htuple_item(st.heap, t, j, base.t) for j, t in enumerate(base.ty.a)][k0:]
                 return V(TTuple(*[i.ty for i in items]), items=items)
             raise OutOfSubset('tuple slice at line %d' % e.lineno)
         if base.ty.k == 'htuple':
@@ -991,7 +994,7 @@ class Engine:
                 j = idx.t.as_long()
                 if j < 0:
                     j += len(base.ty.a)
-                return V(base.ty.a[j], st.heap.fld(None, 't%d' % j, base.t))
+                return self.htuple_item(st.heap, base.ty.a[j], j, base.t)
         if base.ty.k == 'ref' and self.reg.lookup_method(base.ty.a[0], '__getitem__') is not None:
             return self.call_method(st, base, '__getitem__', [self.ev(e.slice, st)], {}, e.lineno)
         raise OutOfSubset('subscript of %r at line %d' % (base.ty, e.lineno))
@@ -1374,12 +1377,22 @@ class Engine:
         st.heap.set('len', z3.Store(st.heap.A('len'), lst.t, n + 1))
         return VNONE
 
+    @staticmethod
+    def htuple_item(heap, ty, j, r):
+        """item j of heap tuple r: references / ints live in the arrays t<j>, reals in tr<j>"""
+        if ty.k == 'real':
+            return V(ty, heap.fld(None, 'tr%d' % j, r))
+        return V(ty, heap.fld(None, 't%d' % j, r))
+
     def heapify_tuple(self, st, v):
         if getattr(v, 'hid', None) is not None:
             return V(THeapTuple(*[i.ty for i in v.items]), v.hid)       # the same tuple object stored a second time keeps its identity
         r = self.alloc(st, 'tuple')
         v.hid = r
         for i, it in enumerate(v.items):
+            if it.ty.k == 'real' and i < 3:
+                st.heap.set('f:tr%d' % i, z3.Store(st.heap.A('f:tr%d' % i, IA_R), r, it.t))
+                continue
             if smt_sort(it.ty) != I:
                 raise OutOfSubset('heap tuple with non-reference item')
             st.heap.set('f:t%d' % i, z3.Store(st.heap.A('f:t%d' % i, IA_I), r, it.t))
@@ -1602,7 +1615,7 @@ class Engine:
         if v.ty.k == 'htuple':
             if len(v.ty.a) != n:
                 raise OutOfSubset('unpack arity at line %d' % line)
-            return [V(t, st.heap.A('f:t%d' % i, IA_I)[v.t]) for i, t in enumerate(v.ty.a)]
+            return [self.htuple_item(st.heap, t, i, v.t) for i, t in enumerate(v.ty.a)]
         if v.ty.k == 'key' and n == 2:
             self.emit('safe.key_is_tuple@%d' % line, st, is_Tup(v.t), line, tag='aux')
             st.pc.append(is_Tup(v.t))
@@ -1670,12 +1683,23 @@ class Engine:
     def narrow_none(self, test, st, holds):
         """on the branch where `x is not None` holds (or `x is None` fails, or a plain `x` of optional object type is true) the local x is not None"""
         name, nonnull = None, None
+        if isinstance(test, ast.BoolOp) and isinstance(test.op, ast.And) and holds:
+            for sub in test.values:
+                self.narrow_none(sub, st, True)
+            return
+        if isinstance(test, ast.BoolOp) and isinstance(test.op, ast.Or) and not holds:
+            for sub in test.values:
+                self.narrow_none(sub, st, False)
+            return
+        if isinstance(test, ast.UnaryOp) and isinstance(test.op, ast.Not):
+            return self.narrow_none(test.operand, st, not holds)
         if isinstance(test, ast.Compare) and len(test.ops) == 1 and isinstance(test.left, ast.Name) and isinstance(test.comparators[0], ast.Constant) \
                 and test.comparators[0].value is None and isinstance(test.ops[0], (ast.Is, ast.IsNot)):
             name = test.left.id
             nonnull = holds if isinstance(test.ops[0], ast.IsNot) else not holds
-        elif isinstance(test, ast.Name) and test.id in st.env and st.env[test.id].ty.k == 'opt' and st.env[test.id].ty.a[0].k in ('ref', 'htuple', 'list', 'dict'):
-            name, nonnull = test.id, (True if holds else None)
+        elif isinstance(test, ast.Name) and test.id in st.env and st.env[test.id].ty.k == 'opt' and (st.env[test.id].ty.a[0].k in ('ref', 'htuple')
+                                                                                                       or (st.env[test.id].ty.a[0].k == 'tuple' and len(st.env[test.id].ty.a[0].a) > 0)):
+            name, nonnull = test.id, (True if holds else None)          # (an optional list / dict may be empty: false without being None)
         if name in st.env and nonnull:
             v = st.env[name]
             if v.ty.k == 'opt':
@@ -1843,7 +1867,7 @@ class Engine:
         if isinstance(s.iter, ast.Name) and s.iter.id in st.env and st.env[s.iter.id].ty.k in ('tuple', 'htuple'):
             # iteration over a tuple of known length: unrolled (no invariant needed)
             tv = st.env[s.iter.id]
-            items = tv.items if tv.ty.k == 'tuple' else [V(t, st.heap.fld(None, 't%d' % j, tv.t)) for j, t in enumerate(tv.ty.a)]
+            items = tv.items if tv.ty.k == 'tuple' else [self.htuple_item(st.heap, t, j, tv.t) for j, t in enumerate(tv.ty.a)]
             states = [st]
             for it in items:
                 nxt = []
